@@ -166,13 +166,16 @@ class SlopeTransformer(_PanelToPanelTransformer):
         -------
         output : a numpy array of shape = [num_intervals,interval_size]
         """
-        avg = len(X) / float(self.num_intervals)
+        n_timepoints = len(X)
         output = []
 
-        # compute each boundary from its index instead of accumulating floats,
-        # which can yield an extra (num_intervals + 1)-th segment
+        # compute each boundary from its index in integer arithmetic: accumulated
+        # or multiplied floats can yield an extra segment or drop the last point
+        # (e.g. 11 * (30 / 11) < 30)
         for i in range(self.num_intervals):
-            output.append(X[int(i * avg) : int((i + 1) * avg)])
+            start = (i * n_timepoints) // self.num_intervals
+            end = ((i + 1) * n_timepoints) // self.num_intervals
+            output.append(X[start:end])
 
         return output
 
